@@ -176,30 +176,66 @@ func oracleAdd(c *Ctx) error {
 		want[p] = id
 	}
 	staged := map[string]string{} // path -> content staged by this command
+	// with a .goitignore (a share of the scenarios): an excluded path keeps whatever entry it has (C17), a path whose
+	// class the properties leave open is not compared at all, everything else follows the rules of this property
+	ign := ignoreLines(pre)
+	open := map[string]bool{}
+	stage := func(p, content string) {
+		switch ignoreClass(ign, p) {
+		case "no":
+			want[p] = blobID(content)
+			staged[p] = content
+		case "unspecified":
+			open[p] = true
+		}
+	}
 	for _, a := range args {
 		if content, ok := pre.Work.Files[a]; ok {
-			want[a] = blobID(content)
-			staged[a] = content
+			stage(a, content)
 			continue
 		}
 		if pre.Work.Dirs[a] {
 			for p, content := range pre.Work.Files {
 				if under(a, p) {
-					want[p] = blobID(content)
-					staged[p] = content
+					stage(p, content)
 				}
 			}
 			continue
 		}
-		delete(want, a) // tracked, no longer on disk: unstaged
+		// tracked, no longer on disk: unstaged
+		alsoDir := false
+		for p := range pre.IdxMap {
+			if under(a, p) {
+				alsoDir = true // the name is staged as a file AND has entries beneath it: with an ignore list, which of the two the name means is open
+			}
+		}
+		switch {
+		case ignoreClass(ign, a) == "no" && !(alsoDir && len(ign) > 0):
+			delete(want, a)
+		default:
+			open[a] = true
+		}
 	}
+
 	if c.Res.Exit != 0 {
 		return fmt.Errorf("add of valid arguments %q failed (exit %d): %s", args, c.Res.Exit, c.Res.Stderr+c.Res.Stdout)
 	}
 	if c.Post.Index == nil {
 		return fmt.Errorf("staging area undecodable after add: %v", c.Post.IndexErr)
 	}
-	if d := mapDiff(want, c.Post.IdxMap); len(d) > 0 {
+	got := c.Post.IdxMap
+	if len(open) > 0 {
+		got = map[string]string{}
+		for p, id := range c.Post.IdxMap {
+			if !open[p] {
+				got[p] = id
+			}
+		}
+		for p := range open {
+			delete(want, p)
+		}
+	}
+	if d := mapDiff(want, got); len(d) > 0 {
 		return fmt.Errorf("staging area after add %q is not exactly (old entries overridden by the named paths): %v", args, d)
 	}
 	// each staged blob is stored and holds the file's bytes
@@ -387,4 +423,4 @@ var profStage = register(&Profile{
 	Classify: classifyStage,
 })
 
-var stageWeights = Weights{"dir-at-unstaged-file": 3, "file-at-unstaged-dir": 3, "dir2file": 3, "write-new": 20, "modify": 12, "remove-file": 10, "rmdir": 4, "recreate": 4, "add": 30, "add-invalid": 3, "rm": 12, "rm-invalid": 3, "file2dir": 4, "revert": 6, "recreate-unstaged": 3, "commit": 6, "reset": 4, "touch": 2, "rewrite-same": 2, "write-temp-sibling": 3}
+var stageWeights = Weights{"ignore-more": 2, "write-ignored": 3, "write-file-named-like-ignored-dir": 3, "dir-at-unstaged-file": 3, "file-at-unstaged-dir": 3, "dir2file": 3, "write-new": 20, "modify": 12, "remove-file": 10, "rmdir": 4, "recreate": 4, "add": 30, "add-invalid": 3, "rm": 12, "rm-invalid": 3, "file2dir": 4, "revert": 6, "recreate-unstaged": 3, "commit": 6, "reset": 4, "touch": 2, "rewrite-same": 2, "write-temp-sibling": 3}
